@@ -636,9 +636,13 @@ func p440compareLocalElem(a, b string) int {
 		return -1
 	}
 	if aDigits {
-		an, _ := strconv.ParseUint(a, 10, 64)
-		bn, _ := strconv.ParseUint(b, 10, 64)
-		return sgnu64(an, bn)
+		// Compare the digits themselves: a segment has no upper bound, and a
+		// number that does not fit an integer type must not be cut down to one.
+		a, b = strings.TrimLeft(a, "0"), strings.TrimLeft(b, "0")
+		if len(a) != len(b) {
+			return sgn(len(a), len(b))
+		}
+		return sgnStr(a, b)
 	}
 	return sgnStr(a, b)
 }
